@@ -79,6 +79,9 @@ Proof.
   induction a; simpl; intros; auto. destruct (mon_step num den ms a); auto.
 Qed.
 
+Lemma mon_run_single : forall num den ms r, mon_run num den ms [r] = mon_step num den ms r.
+Proof. intros. simpl. destruct (mon_step num den ms r); auto. Qed.
+
 (* refinement relation: the history is accepted and leads to the abstraction of the timer table *)
 Definition R (num den : Z) (s : st) : Prop :=
   mon_run num den [] (history s) = Some (map abs (timers s)).
@@ -100,6 +103,9 @@ Proof.
   intros. unfold t_removed. destruct (t_pend x) eqn:E; auto.
   unfold abs. simpl. rewrite E. simpl. rewrite andb_false_r. auto.
 Qed.
+
+Lemma abs_rereg : forall x, abs (t_rereg x) = s_revive (abs x).
+Proof. intros. reflexivity. Qed.
 
 Lemma abs_reset : forall nw niv x, abs (t_reset nw niv x) = s_rearm nw niv (abs x).
 Proof. intros. unfold abs, t_reset, s_rearm. simpl. f_equal. destruct niv; lia. Qed.
@@ -144,6 +150,10 @@ Proof.
     simpl. rewrite nth_error_map, E. simpl. f_equal. symmetry. eapply unregister_abs; eauto.
   - eapply R_nolog; eauto.
   - eapply R_nolog; eauto.
+  - destruct (nth_error (timers s) i) eqn:E; auto.
+    destruct (negb (t_reg t) && negb (t_pend t)); auto.
+    eapply R_log; eauto. reflexivity. simpl. rewrite nth_error_map, E. simpl. f_equal.
+    symmetry. apply map_upd. apply abs_rereg.
 Qed.
 
 Lemma do_ops_R : forall num den l s, R num den s -> R num den (do_ops s l).
@@ -452,7 +462,7 @@ Qed.
 Lemma flush_R : forall batch s, RR s -> RR (flush p s batch).
 Proof. induction batch; simpl; intros; auto. apply IHbatch. apply dispatch_R; auto. Qed.
 
-Lemma run_steps_R : forall l s, RR s -> RR (fst (run_steps s l)).
+Lemma run_steps_R : forall l s id, RR s -> RR (fst (run_steps s l id)).
 Proof.
   induction l; simpl; intros; auto. destruct a; simpl; auto. apply IHl. apply do_ops_R; auto.
 Qed.
@@ -487,9 +497,10 @@ Proof.
   intros. unfold tick.
   pose proof (deliver_due_R (stims s) s H) as H0.
   set (s0 := deliver_due s (stims s)) in *.
-  assert (H1 : RR (set_tasks s0 [])) by (eapply R_nolog; eauto).
-  pose proof (step_tasks_R (tasks s0) (set_tasks s0 []) [] H1) as H2.
-  destruct (step_tasks (set_tasks s0 []) (tasks s0) []) as [s1 alive]. simpl in H2.
+  destruct (reorder (tsched s0) (map k_id (tasks s0))) as [ord tsch'].
+  assert (H1 : RR (set_tsched (set_tasks s0 []) tsch')) by (eapply R_nolog; eauto).
+  pose proof (step_tasks_R (pick_tasks (tasks s0) ord) _ [] H1) as H2.
+  destruct (step_tasks (set_tsched (set_tasks s0 []) tsch') (pick_tasks (tasks s0) ord) []) as [s1 alive]. simpl in H2.
   apply flush_R. eapply R_nolog; eauto.
 Qed.
 
@@ -500,13 +511,13 @@ Proof.
   pose proof (IHn (tick p s) (tick_R s H)). destruct (run p (tick p s) n). auto.
 Qed.
 
-Lemma init_R : forall t0 sts sch, RR (init t0 sts sch).
+Lemma init_R : forall t0 sts sch tsch, RR (init t0 sts sch tsch).
 Proof. intros. reflexivity. Qed.
 
 (* every run of the loop is accepted by the specification, and the specification's view after the run is the
    abstraction of the timers' fields *)
-Theorem run_conforms : forall t0 sts sch n,
-  let s := fst (run p (init t0 sts sch) n) in
+Theorem run_conforms : forall t0 sts sch tsch n,
+  let s := fst (run p (init t0 sts sch tsch) n) in
   spec_after p (history s) = Some (map abs (timers s)).
 Proof. intros. apply run_R. apply init_R. Qed.
 
@@ -518,9 +529,13 @@ Definition touches (i : nat) (r : lrec) : bool :=
   match r with
   | LReset j _ _ => Nat.eqb i j
   | LUnreq j _ => Nat.eqb i j
+  | LRereg j _ => Nat.eqb i j
   | LIter _ fired _ => memb i fired
   | _ => false
   end.
+
+Definition is_rereg (i : nat) (r : lrec) : bool :=
+  match r with LRereg j _ => Nat.eqb i j | _ => false end.
 
 Section Mon.
 Variables num den : Z.
@@ -584,6 +599,8 @@ Proof.
   - apply iter_inv in H. destruct H as [_ [_ [_ H]]]. subst. rewrite fold_fired_notin; auto.
     simpl in T. intro. apply memb_In in H. congruence.
   - simpl in H. inversion H; subst; auto.
+  - simpl in *. destruct (nth_error ms i0); inversion H. rewrite nth_error_upd_other; auto.
+    apply Nat.eqb_neq in T. auto.
 Qed.
 
 Lemma run_untouched : forall l ms ms' i x, mon_run num den ms l = Some ms' ->
@@ -594,12 +611,13 @@ Proof.
   eapply IHl; eauto. eapply step_untouched; eauto.
 Qed.
 
+(* a timer the specification considers dead stays dead and silent until it is registered again *)
 Lemma step_dead : forall ms r ms' i x, mon_step num den ms r = Some ms' ->
-  nth_error ms i = Some x -> s_alive x = false ->
+  nth_error ms i = Some x -> s_alive x = false -> is_rereg i r = false ->
   (exists x', nth_error ms' i = Some x' /\ s_alive x' = false) /\
   (forall t fired w, r = LIter t fired w -> ~ In i fired).
 Proof.
-  intros ms r ms' i x H N A.
+  intros ms r ms' i x H N A RR.
   assert (NF : forall t fired w, r = LIter t fired w -> ~ In i fired).
   { intros; subst. apply iter_inv in H. destruct H as [_ [H _]]. intro I. apply H in I.
     unfold fire_ok in I. rewrite N, A in I. discriminate. }
@@ -610,19 +628,28 @@ Proof.
     + apply Nat.eqb_eq in T. subst i0. simpl in H. rewrite N in H. inversion H.
       exists (s_kill x). split. apply nth_error_upd_same; auto. auto.
     + apply memb_In in T. exfalso. eapply NF; eauto.
+    + simpl in RR. congruence.
   - exists x. split; auto. eapply step_untouched; eauto.
 Qed.
 
-Lemma run_dead : forall l ms ms' i x, mon_run num den ms l = Some ms' ->
-  nth_error ms i = Some x -> s_alive x = false ->
-  forall t fired w, In (LIter t fired w) l -> ~ In i fired.
+Lemma run_dead_state : forall l ms ms' i x, mon_run num den ms l = Some ms' ->
+  nth_error ms i = Some x -> s_alive x = false -> (forall r, In r l -> is_rereg i r = false) ->
+  exists x', nth_error ms' i = Some x' /\ s_alive x' = false.
 Proof.
-  induction l; simpl; intros. tauto.
+  induction l; simpl; intros. inversion H; subst; eauto.
   destruct (mon_step num den ms a) eqn:E; try discriminate.
-  destruct (step_dead _ _ _ _ _ E H0 H1) as [[x' [N' A']] NF].
-  destruct H2.
-  - eapply NF; eauto.
-  - eapply IHl; eauto.
+  destruct (step_dead _ _ _ _ _ E H0 H1 (H2 a (or_introl eq_refl))) as [[x' [N' A']] _].
+  eapply IHl; eauto.
+Qed.
+
+Lemma run_dead : forall mid ms i x t fired w post m, 
+  mon_run num den ms (mid ++ LIter t fired w :: post) = Some m ->
+  nth_error ms i = Some x -> s_alive x = false -> (forall r, In r mid -> is_rereg i r = false) ->
+  ~ In i fired.
+Proof.
+  intros. apply accepted_split in H. destruct H as [ma [mb [A [B C]]]].
+  destruct (run_dead_state _ _ _ _ _ A H0 H1 H2) as [x' [N' A']].
+  eapply (step_dead _ _ _ _ _ B N' A'); eauto.
 Qed.
 
 End Mon.
@@ -630,8 +657,8 @@ End Mon.
 Section Consequences.
 Variable p : prog.
 Hypothesis Hden : 0 < p_tmo_den p.
-Variables (t0 : Z) (sts : list (Z * bool * nat)) (sch : list nat) (n : nat).
-Let h := history (fst (run p (init t0 sts sch) n)).
+Variables (t0 : Z) (sts : list (Z * bool * nat)) (sch tsch : list nat) (n : nat).
+Let h := history (fst (run p (init t0 sts sch tsch) n)).
 
 Lemma h_accepted : exists m, spec_after p h = Some m.
 Proof. eexists. apply run_conforms; auto. Qed.
@@ -680,26 +707,27 @@ Proof.
   destruct (dur (p_tmo_num p) (p_tmo_den p) w); try discriminate. exists z. unfold s_exp in B2. split; auto. lia.
 Qed.
 
-Lemma oneshot_once : forall pre t fired w post ms i x, h = pre ++ LIter t fired w :: post ->
+Lemma oneshot_once : forall pre t fired w mid t' fired' w' post ms i x,
+  h = pre ++ LIter t fired w :: mid ++ LIter t' fired' w' :: post ->
   In i fired -> spec_after p pre = Some ms -> nth_error ms i = Some x -> s_p x = false ->
-  forall t' fired' w', In (LIter t' fired' w') post -> ~ In i fired'.
+  (forall r, In r mid -> is_rereg i r = false) -> ~ In i fired'.
 Proof.
   intros. apply h_split in H. destruct H as [ms1 [ms' [m [A [B C]]]]].
   rewrite H1 in A. inversion A; subst ms1.
-  apply iter_inv in B. destruct B as [ND [_ [_ B]]].
-  subst ms'.
+  apply iter_inv in B. destruct B as [ND [_ [_ B]]]. subst ms'.
   assert (N1 : nth_error (fold_left (fun m j => upd m j (s_fired t)) fired ms) i = Some (s_fired t x))
     by (eapply fold_fired_in; eauto).
-  eapply (run_dead _ _ post _ m i (s_fired t x) C N1); eauto.
+  eapply (run_dead _ _ mid _ i (s_fired t x) t' fired' w' post m C N1); eauto.
   unfold s_fired. rewrite H3. auto.
 Qed.
 
-Lemma unregistered_silent : forall pre i t post, h = pre ++ LUnreq i t :: post ->
-  forall t' fired w, In (LIter t' fired w) post -> ~ In i fired.
+Lemma unregistered_silent : forall pre i t mid t' fired w post,
+  h = pre ++ LUnreq i t :: mid ++ LIter t' fired w :: post ->
+  (forall r, In r mid -> is_rereg i r = false) -> ~ In i fired.
 Proof.
   intros. apply h_split in H. destruct H as [ms [ms' [m [A [B C]]]]].
   simpl in B. destruct (nth_error ms i) eqn:E; try discriminate. inversion B; subst.
-  eapply (run_dead _ _ post _ m i (s_kill s) C); eauto. apply nth_error_upd_same; eauto.
+  eapply (run_dead _ _ mid _ i (s_kill s) t' fired w post m C); eauto. apply nth_error_upd_same; eauto.
 Qed.
 
 Lemma persistent_gap : forall pre t1 f1 w1 mid t2 f2 w2 post ms i x,
@@ -758,118 +786,164 @@ Proof.
   destruct (a <? now s + d) eqn:E; simpl; lia.
 Qed.
 
-(* ------------------------------------------------------------------ the two-stage removal completes
-   (for every state, not only reachable ones): once prepare_unregister(timer i) is queued and the timer carries the
-   pending flag, two ticks later the timer is out of the tree, whatever else happens in those ticks. *)
+(* ------------------------------------------------------------------ the two-stage removal completes *)
 
 Definition gone (tm : timer) : Prop := t_reg tm = false /\ t_pend tm = false.
 Definition pg (tm : timer) : Prop := t_pend tm = true \/ gone tm.
 
-Definition ext (s s' : st) : Prop :=
-  (forall i tm, nth_error (timers s) i = Some tm ->
+(* the program never registers timer i again *)
+Definition op_rr (i : nat) (o : op) : bool := match o with OReReg j => Nat.eqb i j | _ => false end.
+Definition ops_ok (i : nat) (l : list op) : Prop := forall o, In o l -> op_rr i o = false.
+Definition steps_ok (i : nat) (l : list gstep) : Prop := forall o, In (GOps o) l -> ops_ok i o.
+Definition prog_ok (i : nat) (p : prog) : Prop :=
+  (forall l, In l (p_ops p) -> ops_ok i l) /\ (forall l, In l (p_onfire p) -> ops_ok i l) /\
+  (forall l, In l (p_gs p) -> steps_ok i l).
+Definition tasks_ok (i : nat) (s : st) : Prop := forall k, In k (tasks s) -> steps_ok i (k_steps k).
+
+Lemma script_ok : forall A (tbl : list (list A)) k (P : list A -> Prop), P [] -> (forall l, In l tbl -> P l) -> P (script tbl k).
+Proof.
+  intros. unfold script. destruct (nth_error tbl k) eqn:E; auto. apply H0. eapply nth_error_In; eauto.
+Qed.
+
+(* how a step may change the state, as far as the removal of timer i and the book-keeping of pending flags go *)
+Definition xt (i : nat) (s s' : st) : Prop :=
+  (forall tm, nth_error (timers s) i = Some tm ->
      exists tm', nth_error (timers s') i = Some tm' /\ (pg tm -> pg tm') /\ (gone tm -> gone tm')) /\
-  (forall e, In e (queue s) -> In e (queue s')).
+  (forall e, In e (queue s) -> In e (queue s')) /\
+  (forall j tm', nth_error (timers s') j = Some tm' -> t_pend tm' = true ->
+     (exists tm, nth_error (timers s) j = Some tm /\ t_pend tm = true) \/ In (EPrep j) (queue s')).
 
-Lemma ext_refl : forall s, ext s s.
-Proof. intros. split; eauto. Qed.
+Section XT.
+Variable i : nat.
 
-Lemma ext_trans : forall a b c, ext a b -> ext b c -> ext a c.
+Lemma xt_refl : forall s, xt i s s.
+Proof. intros. split; [|split]; eauto. Qed.
+
+Lemma xt_trans : forall a b c, xt i a b -> xt i b c -> xt i a c.
 Proof.
-  intros a b c [A1 A2] [B1 B2]. split; auto. intros i tm H.
-  destruct (A1 i tm H) as [tm1 [N1 [P1 G1]]]. destruct (B1 i tm1 N1) as [tm2 [N2 [P2 G2]]].
-  exists tm2. auto.
+  intros a b c [A1 [A2 A3]] [B1 [B2 B3]]. split; [|split]; auto.
+  - intros tm H. destruct (A1 tm H) as [tm1 [N1 [P1 G1]]]. destruct (B1 tm1 N1) as [tm2 [N2 [P2 G2]]].
+    exists tm2. auto.
+  - intros j tm' N P. destruct (B3 j tm' N P) as [[tm1 [N1 P1]] | H]; auto.
+    destruct (A3 j tm1 N1 P1) as [H | H]; auto.
 Qed.
 
-Lemma ext_same : forall s s', timers s' = timers s -> (forall e, In e (queue s) -> In e (queue s')) -> ext s s'.
-Proof. intros. split; auto. intros. rewrite H. eauto. Qed.
+Lemma xt_same : forall s s', timers s' = timers s -> (forall e, In e (queue s) -> In e (queue s')) -> xt i s s'.
+Proof. intros. split; [|split]; auto; intros; rewrite H in *; eauto. Qed.
 
-Lemma ext_upd_at : forall s s' i f,
-  (forall tm, nth_error (timers s) i = Some tm -> (pg tm -> pg (f tm)) /\ (gone tm -> gone (f tm))) ->
-  timers s' = upd (timers s) i f -> (forall e, In e (queue s) -> In e (queue s')) -> ext s s'.
+Lemma xt_upd_at : forall s s' k f, timers s' = upd (timers s) k f ->
+  (forall e, In e (queue s) -> In e (queue s')) ->
+  (forall tm, nth_error (timers s) k = Some tm ->
+     (k = i -> (pg tm -> pg (f tm)) /\ (gone tm -> gone (f tm))) /\
+     (t_pend (f tm) = true -> t_pend tm = true \/ In (EPrep k) (queue s'))) ->
+  xt i s s'.
 Proof.
-  intros. split; auto. intros j tm N. rewrite H0, nth_error_upd. destruct (Nat.eqb i j) eqn:E.
-  - apply Nat.eqb_eq in E. subst. rewrite N. simpl. exists (f tm). destruct (H tm N). auto.
-  - eauto.
+  intros s s' k f T Q H. split; [|split]; auto.
+  - intros tm N. rewrite T, nth_error_upd. destruct (Nat.eqb k i) eqn:E.
+    + apply Nat.eqb_eq in E. subst k. rewrite N. simpl. exists (f tm). destruct (H tm N) as [H1 _].
+      destruct (H1 eq_refl). auto.
+    + eauto.
+  - intros j tm' N P. rewrite T, nth_error_upd in N. destruct (Nat.eqb k j) eqn:E.
+    + apply Nat.eqb_eq in E. subst k. destruct (nth_error (timers s) j) eqn:E2; simpl in N; inversion N; subst.
+      destruct (H t eq_refl) as [_ H2]. destruct (H2 P); eauto.
+    + eauto.
 Qed.
 
-Lemma ext_app : forall s s' l, timers s' = timers s ++ l -> (forall e, In e (queue s) -> In e (queue s')) -> ext s s'.
+Lemma xt_app : forall s s' l, timers s' = timers s ++ l -> (forall tm, In tm l -> t_pend tm = false) ->
+  (forall e, In e (queue s) -> In e (queue s')) -> xt i s s'.
 Proof.
-  intros. split; auto. intros i tm N. rewrite H. exists tm. split; auto. apply nth_error_app_some; auto.
+  intros s s' l T L Q. split; [|split]; auto.
+  - intros tm N. rewrite T. exists tm. split; auto. apply nth_error_app_some; auto.
+  - intros j tm' N P. rewrite T in N. destruct (lt_dec j (length (timers s))).
+    + rewrite nth_error_app1 in N by auto. eauto.
+    + rewrite nth_error_app2 in N by lia. apply nth_error_In in N. rewrite (L tm' N) in P. discriminate.
 Qed.
 
 Lemma in_push : forall s e x, In x (queue s) -> In x (queue (push_ev s e)).
 Proof. intros. simpl. apply in_or_app. auto. Qed.
 
-Lemma ext_unregister : forall s i, ext s (unregister s i).
+Lemma xt_unregister : forall s k, xt i s (unregister s k).
 Proof.
-  intros. unfold unregister. destruct (nth_error (timers s) i) eqn:E; [|apply ext_refl].
-  destruct (t_reg t && negb (t_pend t)) eqn:C; [|apply ext_refl].
-  eapply ext_upd_at with (i := i) (f := t_set_pend); [|reflexivity|intros; apply in_push; auto].
+  intros. unfold unregister. destruct (nth_error (timers s) k) eqn:E; [|apply xt_refl].
+  destruct (t_reg t && negb (t_pend t)) eqn:C; [|apply xt_refl].
+  eapply xt_upd_at with (k := k) (f := t_set_pend); [reflexivity|intros; apply in_push; auto|].
   intros tm N. rewrite E in N. inversion N; subst. split.
-  - intros. left. reflexivity.
-  - intros [G1 G2]. rewrite G1 in C. discriminate.
+  - intros _. split.
+    + intros. left. reflexivity.
+    + intros [G1 G2]. rewrite G1 in C. discriminate.
+  - intros _. right. simpl. apply in_or_app. right. left. auto.
 Qed.
 
 Lemma reset_keeps : forall nw niv tm, (pg tm -> pg (t_reset nw niv tm)) /\ (gone tm -> gone (t_reset nw niv tm)).
 Proof. intros. unfold pg, gone, t_reset. simpl. tauto. Qed.
 
-Lemma ext_do_op : forall o s, ext s (do_op s o).
+Lemma xt_reset : forall s k nw niv r, xt i s (add_log (set_timers s (upd (timers s) k (t_reset nw niv))) r).
 Proof.
-  destruct o; intros; simpl.
-  - eapply ext_app. reflexivity. intros; simpl; apply in_or_app; auto.
-  - eapply ext_app. reflexivity. intros; simpl; apply in_or_app; auto.
-  - destruct (nth_error (timers s) i); [|apply ext_refl].
-    eapply ext_upd_at; [|reflexivity|auto]. intros; apply reset_keeps.
-  - destruct (nth_error (timers s) i); [|apply ext_refl].
-    eapply ext_upd_at; [|reflexivity|auto]. intros; apply reset_keeps.
-  - destruct (nth_error (timers s) i); [|apply ext_refl].
-    eapply ext_trans. apply (ext_unregister s i). apply ext_same; auto.
-  - apply ext_same; auto.
-  - apply ext_same; auto. intros. apply in_push; auto.
+  intros. eapply xt_upd_at; [reflexivity|auto|]. intros. split. intros; apply reset_keeps. simpl. auto.
 Qed.
 
-Lemma ext_do_ops : forall l s, ext s (do_ops s l).
+Lemma xt_do_op : forall o s, op_rr i o = false -> xt i s (do_op s o).
 Proof.
-  unfold do_ops. induction l; simpl; intros. apply ext_refl.
-  eapply ext_trans. apply ext_do_op. apply IHl.
+  destruct o; intros s OK; simpl.
+  - eapply xt_app. reflexivity. intros tm [H | []]; subst; auto. intros; simpl; apply in_or_app; auto.
+  - eapply xt_app. reflexivity. intros tm [H | []]; subst; auto. intros; simpl; apply in_or_app; auto.
+  - destruct (nth_error (timers s) i0); [|apply xt_refl]. apply xt_reset.
+  - destruct (nth_error (timers s) i0); [|apply xt_refl]. apply xt_reset.
+  - destruct (nth_error (timers s) i0); [|apply xt_refl].
+    eapply xt_trans. apply (xt_unregister s i0). apply xt_same; auto.
+  - apply xt_same; auto.
+  - apply xt_same; auto. intros. apply in_push; auto.
+  - destruct (nth_error (timers s) i0) eqn:E; [|apply xt_refl].
+    destruct (negb (t_reg t) && negb (t_pend t)) eqn:C; [|apply xt_refl].
+    eapply xt_upd_at with (k := i0) (f := t_rereg); [reflexivity|intros; simpl; apply in_or_app; auto|].
+    intros tm N. split.
+    + intros. subst i0. simpl in OK. rewrite Nat.eqb_refl in OK. discriminate.
+    + simpl. discriminate.
 Qed.
 
-Lemma ext_fire_timer : forall s i, ext s (fire_timer s i).
+Lemma xt_do_ops : forall l s, ops_ok i l -> xt i s (do_ops s l).
 Proof.
-  intros. unfold fire_timer. destruct (nth_error (timers s) i); [|apply ext_refl].
+  unfold do_ops. induction l; simpl; intros. apply xt_refl.
+  eapply xt_trans. apply xt_do_op. apply H. left; auto. apply IHl. intros o Ho. apply H. right; auto.
+Qed.
+
+Lemma xt_fire_timer : forall s k, xt i s (fire_timer s k).
+Proof.
+  intros. unfold fire_timer. destruct (nth_error (timers s) k); [|apply xt_refl].
   destruct (t_persist t).
-  - eapply ext_upd_at; [|reflexivity|intros; apply in_push; auto]. intros; apply reset_keeps.
-  - eapply ext_trans; [|apply ext_unregister]. apply ext_same; auto. intros; apply in_push; auto.
+  - eapply xt_upd_at; [reflexivity|intros; apply in_push; auto|].
+    intros. split. intros; apply reset_keeps. simpl. auto.
+  - eapply xt_trans; [|apply xt_unregister]. apply xt_same; auto. intros; apply in_push; auto.
 Qed.
 
-Lemma ext_fire_fold : forall l s, ext s (fold_left fire_timer l s).
+Lemma xt_fire_fold : forall l s, xt i s (fold_left fire_timer l s).
 Proof.
-  induction l; simpl; intros. apply ext_refl. eapply ext_trans. apply ext_fire_timer. apply IHl.
+  induction l; simpl; intros. apply xt_refl. eapply xt_trans. apply xt_fire_timer. apply IHl.
 Qed.
 
-Lemma ext_idle_wait : forall s d, ext s (idle_wait s d).
+Lemma xt_idle_wait : forall s d, xt i s (idle_wait s d).
 Proof.
   intros. unfold idle_wait. destruct (stims s) as [|[[a b] c] r]; destruct d; simpl.
-  - apply ext_same; auto.
-  - apply ext_same; auto.
+  - apply xt_same; auto.
+  - apply xt_same; auto.
   - destruct (a <? now s + z).
-    + apply ext_same; auto. intros. simpl. apply in_or_app. auto.
-    + apply ext_same; auto.
-  - apply ext_same; auto. intros. simpl. apply in_or_app. auto.
+    + apply xt_same; auto. intros. simpl. apply in_or_app. auto.
+    + apply xt_same; auto.
+  - apply xt_same; auto. intros. simpl. apply in_or_app. auto.
 Qed.
 
-Lemma ext_do_gen : forall p s more, ext s (do_gen p s more).
+Lemma xt_do_gen : forall p s more, xt i s (do_gen p s more).
 Proof.
   intros. unfold do_gen. destruct (reorder (sched s) (due_from (now s) 0 (timers s))) as [due sch'].
   set (s1 := fold_left fire_timer due (set_sched s sch')).
-  assert (E1 : ext s s1).
-  { eapply ext_trans; [|apply ext_fire_fold]. apply ext_same; auto. }
+  assert (E1 : xt i s s1).
+  { eapply xt_trans; [|apply xt_fire_fold]. apply xt_same; auto. }
   destruct (reduce_all _ _ _ _ _).
-  - eapply ext_trans; [|apply ext_idle_wait]. eapply ext_trans. apply E1. apply ext_same; auto.
+  - eapply xt_trans; [|apply xt_idle_wait]. eapply xt_trans. apply E1. apply xt_same; auto.
   - destruct (d <=? 0).
-    + eapply ext_trans. apply E1. apply ext_same; auto.
-    + eapply ext_trans; [|apply ext_idle_wait]. eapply ext_trans. apply E1. apply ext_same; auto.
-  - eapply ext_trans; [|apply ext_idle_wait]. eapply ext_trans. apply E1. apply ext_same; auto.
+    + eapply xt_trans. apply E1. apply xt_same; auto.
+    + eapply xt_trans; [|apply xt_idle_wait]. eapply xt_trans. apply E1. apply xt_same; auto.
+  - eapply xt_trans; [|apply xt_idle_wait]. eapply xt_trans. apply E1. apply xt_same; auto.
 Qed.
 
 Lemma removed_keeps : forall tm, (pg tm -> pg (t_removed tm)) /\ (gone tm -> gone (t_removed tm)).
@@ -878,103 +952,296 @@ Proof.
   unfold pg, gone. simpl. split; [auto | intros [_ H]; congruence].
 Qed.
 
-Lemma ext_dispatch : forall p s e more, ext s (dispatch p s e more).
+Lemma removed_not_pend : forall tm, t_pend (t_removed tm) = false.
+Proof. intros. unfold t_removed. destruct (t_pend tm) eqn:E; auto. Qed.
+
+Lemma xt_dispatch : forall p s e more, prog_ok i p -> xt i s (dispatch p s e more).
 Proof.
-  intros. destruct e; simpl.
-  - apply ext_do_gen.
-  - eapply ext_trans; [|apply ext_do_ops]. apply ext_same; auto.
-  - apply ext_do_ops.
-  - apply ext_same; auto.
-  - apply ext_refl.
-  - apply ext_same; auto. intros; apply in_push; auto.
-  - eapply ext_upd_at with (i := i) (f := t_removed); [|reflexivity|intros; apply in_push; auto].
-    intros; apply removed_keeps.
+  intros p s e more [O1 [O2 O3]]. destruct e; simpl.
+  - apply xt_do_gen.
+  - eapply xt_trans; [|apply xt_do_ops]. apply xt_same; auto.
+    apply script_ok; auto. intros o [].
+  - apply xt_do_ops. apply script_ok; auto. intros o [].
+  - apply xt_same; auto.
+  - apply xt_refl.
+  - apply xt_same; auto. intros; apply in_push; auto.
+  - eapply xt_upd_at with (k := i0) (f := t_removed); [reflexivity|intros; apply in_push; auto|].
+    intros. split. intros; apply removed_keeps. rewrite removed_not_pend. discriminate.
 Qed.
 
-Lemma ext_flush : forall p batch s, ext s (flush p s batch).
+Lemma xt_flush : forall p batch s, prog_ok i p -> xt i s (flush p s batch).
 Proof.
-  induction batch; simpl; intros. apply ext_refl. eapply ext_trans. apply ext_dispatch. apply IHbatch.
+  induction batch; simpl; intros. apply xt_refl.
+  eapply xt_trans; [eapply (xt_dispatch p s a); exact H | apply IHbatch; auto].
 Qed.
+
+Lemma xt_run_steps : forall l s id, steps_ok i l -> xt i s (fst (run_steps s l id)).
+Proof.
+  induction l; simpl; intros. apply xt_refl. destruct a; simpl; try apply xt_refl.
+  eapply xt_trans. apply xt_do_ops. apply H. left; auto. apply IHl. intros o Ho. apply H. right; auto.
+Qed.
+
+Lemma xt_step_tasks : forall l s acc, (forall k, In k l -> steps_ok i (k_steps k)) ->
+  xt i s (fst (step_tasks s l acc)).
+Proof.
+  induction l; simpl; intros. apply xt_refl.
+  assert (E : xt i s (fst (step_task s a))).
+  { unfold step_task. destruct (k_sleep a). destruct (z <=? now s); apply xt_refl.
+    apply xt_run_steps. apply H. left; auto. }
+  destruct (step_task s a) as [s1 k1]. simpl in E. eapply xt_trans. apply E. apply IHl.
+  intros k Hk. apply H. right; auto.
+Qed.
+
+Lemma xt_deliver_due : forall l s, xt i s (deliver_due s l).
+Proof.
+  induction l; simpl; intros. apply xt_same; auto.
+  destruct (fst (fst a) <=? now s).
+  - eapply xt_trans; [|apply IHl]. destruct a as [[x y] z]. apply xt_same; auto. intros; apply in_push; auto.
+  - apply xt_same; auto.
+Qed.
+
+End XT.
 
 Definition PG (s : st) (i : nat) : Prop := exists tm, nth_error (timers s) i = Some tm /\ pg tm.
 Definition Gone (s : st) (i : nat) : Prop := exists tm, nth_error (timers s) i = Some tm /\ gone tm.
 
-Lemma ext_PG : forall s s' i, ext s s' -> PG s i -> PG s' i.
-Proof. intros s s' i [E _] [tm [N P]]. destruct (E i tm N) as [tm' [N' [P' _]]]. exists tm'. auto. Qed.
-Lemma ext_Gone : forall s s' i, ext s s' -> Gone s i -> Gone s' i.
-Proof. intros s s' i [E _] [tm [N P]]. destruct (E i tm N) as [tm' [N' [_ P']]]. exists tm'. auto. Qed.
+Lemma xt_PG : forall i s s', xt i s s' -> PG s i -> PG s' i.
+Proof. intros i s s' [E _] [tm [N P]]. destruct (E tm N) as [tm' [N' [P' _]]]. exists tm'. auto. Qed.
+Lemma xt_Gone : forall i s s', xt i s s' -> Gone s i -> Gone s' i.
+Proof. intros i s s' [E _] [tm [N P]]. destruct (E tm N) as [tm' [N' [_ P']]]. exists tm'. auto. Qed.
 
-Lemma flush_prep : forall p batch s i, In (EPrep i) batch -> In (EPrepC i) (queue (flush p s batch)).
+(* every pending timer has its prepare_unregister, or the completion event, among the events still to be dispatched
+   (X: rest of the batch being flushed) *)
+Definition QX (s : st) (X : list ev) : Prop :=
+  forall j tm, nth_error (timers s) j = Some tm -> t_pend tm = true ->
+    In (EPrep j) (X ++ queue s) \/ In (EPrepC j) (X ++ queue s).
+
+Lemma xt_QX : forall i s s' X, xt i s s' -> QX s X -> QX s' X.
 Proof.
-  induction batch; simpl; intros. tauto. destruct H.
-  - subst. apply (ext_flush p batch). simpl. apply in_or_app. right. left. auto.
+  intros i s s' X [_ [B C]] Q j tm' N P.
+  assert (M : forall e, In e (X ++ queue s) -> In e (X ++ queue s')).
+  { intros e H. apply in_app_or in H. apply in_or_app. destruct H; auto. }
+  destruct (C j tm' N P) as [[tm [N0 P0]] | H].
+  - destruct (Q j tm N0 P0); auto.
+  - left. apply in_or_app. auto.
+Qed.
+
+Lemma dispatch_QX : forall i p s e r more, prog_ok i p -> QX s (e :: r) -> QX (dispatch p s e more) r.
+Proof.
+  intros i p s e r more OK Q.
+  assert (GEN : (forall j, e <> EPrep j) -> (forall j, e <> EPrepC j) -> QX (dispatch p s e more) r).
+  { intros N1 N2. pose proof (xt_QX i _ _ _ (xt_dispatch i p s e more OK) Q) as Q'.
+    intros j tm N P. destruct (Q' j tm N P) as [H | H]; simpl in H; destruct H as [H | H]; auto;
+      exfalso; [eapply N1 | eapply N2]; eauto. }
+  destruct e; try (apply GEN; intros; discriminate).
+  - (* EPrep i0 *) simpl. intros j tm N P. simpl in N. destruct (Q j tm N P) as [H | H]; simpl in H; destruct H as [H | H].
+    + inversion H; subst. right. apply in_or_app. right. simpl. apply in_or_app. right. left. auto.
+    + left. apply in_app_or in H. apply in_or_app. destruct H; auto. right. simpl. apply in_or_app. auto.
+    + discriminate.
+    + right. apply in_app_or in H. apply in_or_app. destruct H; auto. right. simpl. apply in_or_app. auto.
+  - (* EPrepC i0 *) simpl. intros j tm N P. simpl in N. rewrite nth_error_upd in N.
+    destruct (Nat.eqb i0 j) eqn:E.
+    + destruct (nth_error (timers s) j); simpl in N; inversion N; subst. rewrite removed_not_pend in P. discriminate.
+    + apply Nat.eqb_neq in E. destruct (Q j tm N P) as [H | H]; simpl in H; destruct H as [H | H].
+      * discriminate.
+      * left. apply in_app_or in H. apply in_or_app. destruct H; auto. right. simpl. apply in_or_app. auto.
+      * inversion H; subst. congruence.
+      * right. apply in_app_or in H. apply in_or_app. destruct H; auto. right. simpl. apply in_or_app. auto.
+Qed.
+
+Lemma flush_QX : forall i p batch s, prog_ok i p -> QX s batch -> QX (flush p s batch) [].
+Proof.
+  induction batch; simpl; intros; auto. apply IHbatch; auto. eapply dispatch_QX; eauto.
+Qed.
+
+Lemma flush_prep : forall i p batch s, prog_ok i p -> In (EPrep i) batch -> In (EPrepC i) (queue (flush p s batch)).
+Proof.
+  induction batch; simpl; intros. tauto. destruct H0.
+  - subst. apply (xt_flush i p batch); auto. simpl. apply in_or_app. right. left. auto.
   - auto.
 Qed.
 
-Lemma flush_prepc : forall p batch s i, In (EPrepC i) batch -> PG s i -> Gone (flush p s batch) i.
+Lemma flush_prepc : forall i p batch s, prog_ok i p -> In (EPrepC i) batch -> PG s i -> Gone (flush p s batch) i.
 Proof.
-  induction batch; simpl; intros. tauto. destruct H.
-  - subst. eapply ext_Gone. apply ext_flush. simpl.
-    destruct H0 as [tm [N P]]. exists (t_removed tm). split. simpl. apply nth_error_upd_same; auto.
+  induction batch; simpl; intros. tauto. destruct H0.
+  - subst. eapply xt_Gone. apply xt_flush; auto. simpl.
+    destruct H1 as [tm [N P]]. exists (t_removed tm). split. simpl. apply nth_error_upd_same; auto.
     unfold t_removed. destruct P as [P | P].
     + rewrite P. split; auto.
     + destruct P as [P1 P2]. rewrite P2. split; auto.
-  - apply IHbatch; auto. eapply ext_PG; eauto. apply ext_dispatch.
+  - apply IHbatch; auto. eapply xt_PG; eauto. apply xt_dispatch; auto.
 Qed.
 
-Lemma ext_run_steps : forall l s, ext s (fst (run_steps s l)).
+(* tasks only ever run steps of the program's generators *)
+Lemma do_op_tasks : forall o s, tasks (do_op s o) = tasks s.
 Proof.
-  induction l; simpl; intros. apply ext_refl. destruct a; simpl; try apply ext_refl.
-  eapply ext_trans. apply ext_do_ops. apply IHl.
+  destruct o; intros; simpl; auto;
+    try (destruct (nth_error (timers s) i); auto; fail).
+  - destruct (nth_error (timers s) i); auto. simpl. unfold unregister.
+    destruct (nth_error (timers s) i); auto. destruct (_ && _); auto.
+  - destruct (nth_error (timers s) i); auto. destruct (_ && _); auto.
 Qed.
 
-Lemma ext_step_tasks : forall l s acc, ext s (fst (step_tasks s l acc)).
+Lemma do_ops_tasks : forall l s, tasks (do_ops s l) = tasks s.
+Proof. unfold do_ops. induction l; simpl; intros; auto. rewrite IHl. apply do_op_tasks. Qed.
+
+Lemma fire_timer_tasks : forall s k, tasks (fire_timer s k) = tasks s.
 Proof.
-  induction l; simpl; intros. apply ext_refl.
-  assert (E : ext s (fst (step_task s a))).
-  { unfold step_task. destruct (k_sleep a). destruct (z <=? now s); apply ext_refl. apply ext_run_steps. }
-  destruct (step_task s a) as [s1 k1]. simpl in E. eapply ext_trans. apply E. apply IHl.
+  intros. unfold fire_timer. destruct (nth_error (timers s) k); auto. destruct (t_persist t); auto.
+  unfold unregister. simpl. destruct (nth_error (timers s) k); auto. destruct (_ && _); auto.
 Qed.
 
-Lemma ext_deliver_due : forall l s, ext s (deliver_due s l).
+Lemma fire_fold_tasks : forall l s, tasks (fold_left fire_timer l s) = tasks s.
+Proof. induction l; simpl; intros; auto. rewrite IHl. apply fire_timer_tasks. Qed.
+
+Lemma idle_wait_tasks : forall s d, tasks (idle_wait s d) = tasks s.
 Proof.
-  induction l; simpl; intros. apply ext_same; auto.
-  destruct (fst (fst a) <=? now s).
-  - eapply ext_trans; [|apply IHl]. destruct a as [[x y] z]. apply ext_same; auto. intros; apply in_push; auto.
-  - apply ext_same; auto.
+  intros. unfold idle_wait. destruct (stims s) as [|[[a b] c] r]; destruct d; simpl; auto.
+  destruct (a <? now s + z); auto.
+Qed.
+
+Lemma do_gen_tasks : forall p s more, tasks (do_gen p s more) = tasks s.
+Proof.
+  intros. unfold do_gen. destruct (reorder _ _) as [due sch'].
+  destruct (reduce_all _ _ _ _ _); [| destruct (d <=? 0) |];
+    try rewrite idle_wait_tasks; simpl; rewrite fire_fold_tasks; auto.
+Qed.
+
+Lemma dispatch_tasks_ok : forall i p s e more, prog_ok i p -> tasks_ok i s -> tasks_ok i (dispatch p s e more).
+Proof.
+  intros i p s e more [_ [_ O3]] T. unfold tasks_ok in *. destruct e; simpl.
+  - rewrite do_gen_tasks. auto.
+  - rewrite do_ops_tasks. auto.
+  - rewrite do_ops_tasks. auto.
+  - intros k0 Hk. apply in_app_or in Hk. destruct Hk as [Hk | [Hk | []]]; auto. subst. simpl.
+    apply script_ok; auto. intros o [].
+  - auto.
+  - auto.
+  - auto.
+Qed.
+
+Lemma flush_tasks_ok : forall i p batch s, prog_ok i p -> tasks_ok i s -> tasks_ok i (flush p s batch).
+Proof. induction batch; simpl; intros; auto. apply IHbatch; auto. apply dispatch_tasks_ok; auto. Qed.
+
+Lemma run_steps_res : forall i l s id, steps_ok i l ->
+  tasks (fst (run_steps s l id)) = tasks s /\
+  match snd (run_steps s l id) with Some k => steps_ok i (k_steps k) | None => True end.
+Proof.
+  induction l; simpl; intros; auto. destruct a; simpl.
+  - destruct (IHl (do_ops s l0) id) as [A B]. intros o Ho. apply H. right; auto.
+    rewrite A, do_ops_tasks. auto.
+  - split; auto. intros o Ho. apply H. right; auto.
+  - split; auto. intros o Ho. apply H. right; auto.
+Qed.
+
+Lemma step_tasks_res : forall i l s acc, (forall k, In k l -> steps_ok i (k_steps k)) ->
+  (forall k, In k acc -> steps_ok i (k_steps k)) ->
+  tasks (fst (step_tasks s l acc)) = tasks s /\
+  (forall k, In k (snd (step_tasks s l acc)) -> steps_ok i (k_steps k)).
+Proof.
+  induction l; simpl; intros; auto.
+  assert (E : tasks (fst (step_task s a)) = tasks s /\
+              match snd (step_task s a) with Some k => steps_ok i (k_steps k) | None => True end).
+  { unfold step_task. destruct (k_sleep a).
+    - destruct (z <=? now s); simpl; split; auto; apply H; left; auto.
+    - apply run_steps_res. apply H. left; auto. }
+  destruct (step_task s a) as [s1 k1]. simpl in E. destruct E as [E1 E2].
+  destruct (IHl s1 (match k1 with Some k' => acc ++ [k'] | None => acc end)) as [A B].
+  - intros k Hk. apply H. right; auto.
+  - destruct k1; auto. intros k Hk. apply in_app_or in Hk. destruct Hk as [Hk | [Hk | []]]; auto. subst; auto.
+  - rewrite A, E1. auto.
+Qed.
+
+Lemma pick_tasks_in : forall l ids k, In k (pick_tasks l ids) -> In k l.
+Proof.
+  intros. unfold pick_tasks in H. apply in_flat_map in H. destruct H as [id [_ H]].
+  destruct (find (fun k0 => Nat.eqb (k_id k0) id) l) eqn:E; simpl in H; [|tauto].
+  destruct H as [H | []]. subst. apply find_some in E. tauto.
+Qed.
+
+Lemma deliver_due_tasks : forall l s, tasks (deliver_due s l) = tasks s.
+Proof.
+  induction l; simpl; intros; auto. destruct (fst (fst a) <=? now s); auto.
+  rewrite IHl. destruct a as [[x y] z]. auto.
 Qed.
 
 (* the state just before the flush of a tick, and the batch it flushes *)
-Lemma tick_shape : forall p s, exists s3,
-  tick p s = flush p (set_queue s3 []) (queue s3) /\ ext s s3.
+Lemma tick_shape : forall i p s, prog_ok i p -> tasks_ok i s -> exists s3,
+  tick p s = flush p (set_queue s3 []) (queue s3) /\ xt i s s3 /\ tasks_ok i s3.
 Proof.
-  intros. unfold tick.
-  pose proof (ext_deliver_due (stims s) s) as E0. set (s0 := deliver_due s (stims s)) in *.
-  pose proof (ext_step_tasks (tasks s0) (set_tasks s0 []) []) as E1.
-  destruct (step_tasks (set_tasks s0 []) (tasks s0) []) as [s1 alive]. simpl in E1.
-  eexists. split. reflexivity.
-  eapply ext_trans. apply E0. eapply ext_trans. apply (ext_same s0 (set_tasks s0 [])); auto.
-  eapply ext_trans. apply E1. apply ext_same; auto. intros. simpl. apply in_or_app. auto.
+  intros i p s OK T. unfold tick.
+  pose proof (xt_deliver_due i (stims s) s) as E0.
+  pose proof (deliver_due_tasks (stims s) s) as T0. set (s0 := deliver_due s (stims s)) in *.
+  destruct (reorder (tsched s0) (map k_id (tasks s0))) as [ord tsch'].
+  assert (PK : forall k, In k (pick_tasks (tasks s0) ord) -> steps_ok i (k_steps k)).
+  { intros k Hk. apply pick_tasks_in in Hk. rewrite T0 in Hk. auto. }
+  pose proof (xt_step_tasks i _ (set_tsched (set_tasks s0 []) tsch') [] PK) as E1.
+  destruct (step_tasks_res i _ (set_tsched (set_tasks s0 []) tsch') [] PK ltac:(intros k [])) as [R1 R2].
+  destruct (step_tasks (set_tsched (set_tasks s0 []) tsch') (pick_tasks (tasks s0) ord) []) as [s1 alive].
+  simpl in E1, R1, R2.
+  eexists. split. reflexivity. split.
+  - eapply xt_trans. apply E0. eapply xt_trans. apply (xt_same i s0 (set_tsched (set_tasks s0 []) tsch')); auto.
+    eapply xt_trans. apply E1. apply xt_same; auto. intros. simpl. apply in_or_app. auto.
+  - unfold tasks_ok. simpl. rewrite R1. simpl. rewrite app_nil_r. auto.
 Qed.
 
-Lemma tick_prep : forall p s i, In (EPrep i) (queue s) -> PG s i ->
+(* the invariant of runs *)
+Definition Inv (i : nat) (s : st) : Prop := QX s [] /\ tasks_ok i s.
+
+Lemma tick_Inv : forall i p s, prog_ok i p -> Inv i s -> Inv i (tick p s).
+Proof.
+  intros i p s OK [Q T]. destruct (tick_shape i p s OK T) as [s3 [E [X T3]]]. rewrite E. split.
+  - apply (flush_QX i); auto. pose proof (xt_QX i _ _ _ X Q) as Q3.
+    intros j tm N P. simpl in N. destruct (Q3 j tm N P) as [H | H]; simpl in *; rewrite app_nil_r; auto.
+  - apply flush_tasks_ok; auto.
+Qed.
+
+Lemma run_Inv : forall i p n s, prog_ok i p -> Inv i s -> Inv i (fst (run p s n)).
+Proof.
+  induction n; simpl; intros; auto. destruct (halted s); auto.
+  pose proof (IHn (tick p s) H (tick_Inv i p s H H0)). destruct (run p (tick p s) n). auto.
+Qed.
+
+Lemma init_Inv : forall i t0 sts sch tsch, Inv i (init t0 sts sch tsch).
+Proof. intros. split. intros j tm N. destruct j; discriminate. intros k []. Qed.
+
+Lemma tick_prep : forall i p s, prog_ok i p -> tasks_ok i s -> In (EPrep i) (queue s) -> PG s i ->
   In (EPrepC i) (queue (tick p s)) /\ PG (tick p s) i.
 Proof.
-  intros. destruct (tick_shape p s) as [s3 [T E]]. rewrite T. split.
-  - apply flush_prep. apply E. auto.
-  - assert (P3 : PG s3 i) by (eapply ext_PG; eauto).
-    eapply ext_PG. apply ext_flush. destruct P3 as [tm [N P]]. exists tm. auto.
+  intros i p s OK T H H0. destruct (tick_shape i p s OK T) as [s3 [E [X _]]]. rewrite E. split.
+  - apply (flush_prep i); auto. apply X. auto.
+  - assert (P3 : PG s3 i) by (eapply xt_PG; eauto).
+    eapply xt_PG. apply xt_flush; auto. destruct P3 as [tm [N P]]. exists tm. auto.
 Qed.
 
-Lemma tick_prepc : forall p s i, In (EPrepC i) (queue s) -> PG s i -> Gone (tick p s) i.
+Lemma tick_prepc : forall i p s, prog_ok i p -> tasks_ok i s -> In (EPrepC i) (queue s) -> PG s i -> Gone (tick p s) i.
 Proof.
-  intros. destruct (tick_shape p s) as [s3 [T E]]. rewrite T.
-  assert (P3 : PG s3 i) by (eapply ext_PG; eauto).
-  apply flush_prepc. apply E; auto. destruct P3 as [tm [N P]]. exists tm. auto.
+  intros i p s OK T H H0. destruct (tick_shape i p s OK T) as [s3 [E [X _]]]. rewrite E.
+  assert (P3 : PG s3 i) by (eapply xt_PG; eauto).
+  apply (flush_prepc i); auto; try (apply X; auto; fail); try (destruct P3 as [tm [N P]]; exists tm; auto).
 Qed.
 
-Theorem removal_completes : forall p s i, In (EPrep i) (queue s) -> PG s i -> Gone (tick p (tick p s)) i.
-Proof. intros. destruct (tick_prep p s i H H0). apply tick_prepc; auto. Qed.
+Theorem gone_stays : forall i p s, prog_ok i p -> tasks_ok i s -> Gone s i -> Gone (tick p s) i.
+Proof.
+  intros i p s OK T H. destruct (tick_shape i p s OK T) as [s3 [E [X _]]]. rewrite E.
+  assert (P3 : Gone s3 i) by (eapply xt_Gone; eauto).
+  eapply xt_Gone. apply xt_flush; auto. destruct P3 as [tm [N P]]. exists tm. auto.
+Qed.
+
+(* a timer that is not alive (pending, or out already) is out of the tree two ticks later *)
+Lemma removed_after_two : forall i p s tm, prog_ok i p -> Inv i s ->
+  nth_error (timers s) i = Some tm -> t_reg tm && negb (t_pend tm) = false -> Gone (tick p (tick p s)) i.
+Proof.
+  intros i p s tm OK [Q T] N A.
+  pose proof (tick_Inv i p s OK (conj Q T)) as [Q1 T1].
+  destruct (t_pend tm) eqn:P.
+  - assert (PGs : PG s i) by (exists tm; split; auto; left; auto).
+    destruct (Q i tm N P) as [H | H]; simpl in H.
+    + destruct (tick_prep i p s OK T H PGs) as [H1 H2]. apply tick_prepc; auto.
+    + apply gone_stays; auto. apply tick_prepc; auto.
+  - assert (G : Gone s i). { exists tm. split; auto. split; auto. destruct (t_reg tm); auto. }
+    apply gone_stays; auto. apply gone_stays; auto.
+Qed.
 
 (* what starts the removal: unregister() on an alive timer, in particular a one-shot that fires *)
 Lemma unregister_starts : forall s i tm, nth_error (timers s) i = Some tm -> t_reg tm && negb (t_pend tm) = true ->
@@ -991,13 +1258,61 @@ Lemma oneshot_fire_starts : forall s i tm, nth_error (timers s) i = Some tm -> t
 Proof.
   intros. unfold fire_timer. rewrite H, H0.
   destruct (unregister_starts (push_ev s (ETimer i)) i tm H H1) as [A B]. repeat split; auto.
-  apply ext_unregister. simpl. apply in_or_app. right. left. auto.
+  apply (xt_unregister i). simpl. apply in_or_app. right. left. auto.
 Qed.
 
-(* once gone, a timer stays gone *)
-Theorem gone_stays : forall p s i, Gone s i -> Gone (tick p s) i.
+(* for every run: a timer the specification considers dead at the end of the history (a one-shot that fired, a timer
+   whose unregistration was requested, not registered again since) is out of the tree two ticks later *)
+Section Removed.
+Variable p : prog.
+Hypothesis Hden : 0 < p_tmo_den p.
+Variables (t0 : Z) (sts : list (Z * bool * nat)) (sch tsch : list nat) (n : nat).
+Let sn := fst (run p (init t0 sts sch tsch) n).
+
+Lemma dead_removed : forall i pre ms x post m, prog_ok i p ->
+  history sn = pre ++ post -> spec_after p pre = Some ms -> nth_error ms i = Some x -> s_alive x = false ->
+  mon_run (p_tmo_num p) (p_tmo_den p) ms post = Some m ->
+  (forall r, In r post -> is_rereg i r = false) ->
+  Gone (tick p (tick p sn)) i.
 Proof.
-  intros. destruct (tick_shape p s) as [s3 [T E]]. rewrite T.
-  assert (P3 : Gone s3 i) by (eapply ext_Gone; eauto).
-  eapply ext_Gone. apply ext_flush. destruct P3 as [tm [N P]]. exists tm. auto.
+  intros i pre ms x post m OK H S N A M RR.
+  pose proof (run_conforms p Hden t0 sts sch tsch n) as C. simpl in C. fold sn in C.
+  rewrite H in C. unfold spec_after in C, S. rewrite mon_run_app, S, M in C. inversion C; subst m.
+  destruct (run_dead_state _ _ _ _ _ _ _ M N A RR) as [x' [N' A']].
+  rewrite nth_error_map in N'. destruct (nth_error (timers sn) i) eqn:E; simpl in N'; inversion N'; subst.
+  eapply removed_after_two; eauto. apply run_Inv; auto. apply init_Inv.
 Qed.
+
+Lemma oneshot_removed : forall i pre t fired w post ms x, prog_ok i p ->
+  history sn = pre ++ LIter t fired w :: post -> In i fired ->
+  spec_after p pre = Some ms -> nth_error ms i = Some x -> s_p x = false ->
+  (forall r, In r post -> is_rereg i r = false) ->
+  Gone (tick p (tick p sn)) i.
+Proof.
+  intros i pre t fired w post ms x OK H I S N P RR.
+  pose proof (run_conforms p Hden t0 sts sch tsch n) as C. simpl in C. fold sn in C. rewrite H in C.
+  apply accepted_split in C. destruct C as [ms1 [ms' [A [B C]]]].
+  unfold spec_after in S. rewrite S in A. inversion A; subst ms1.
+  pose proof B as B'. apply iter_inv in B'. destruct B' as [ND [_ [_ B']]].
+  assert (N1 : nth_error ms' i = Some (s_fired t x)) by (subst ms'; eapply fold_fired_in; eauto).
+  eapply (dead_removed i (pre ++ [LIter t fired w]) ms' (s_fired t x) post); eauto.
+  - rewrite <- app_assoc. auto.
+  - unfold spec_after. rewrite mon_run_app, S, mon_run_single. exact B.
+  - unfold s_fired. rewrite P. auto.
+Qed.
+
+Lemma unregistered_removed : forall i pre t post, prog_ok i p ->
+  history sn = pre ++ LUnreq i t :: post -> (forall r, In r post -> is_rereg i r = false) ->
+  Gone (tick p (tick p sn)) i.
+Proof.
+  intros i pre t post OK H RR.
+  pose proof (run_conforms p Hden t0 sts sch tsch n) as C. simpl in C. fold sn in C. rewrite H in C.
+  apply accepted_split in C. destruct C as [ms [ms' [A [B C]]]].
+  pose proof B as B'. simpl in B'. destruct (nth_error ms i) eqn:E; try discriminate. inversion B'; subst ms'.
+  eapply (dead_removed i (pre ++ [LUnreq i t]) (upd ms i s_kill) (s_kill s) post); eauto.
+  - rewrite <- app_assoc. auto.
+  - unfold spec_after. rewrite mon_run_app. unfold spec_after in A. rewrite A, mon_run_single. exact B.
+  - apply nth_error_upd_same; auto.
+Qed.
+
+End Removed.
